@@ -8,8 +8,9 @@ from gen import discs, flux
 from props import common
 
 LEAN_MODULE = 'Beeb.Props.C05'
-LEAN_MODULES = ['Beeb.Props.C05', 'Beeb.Props.C05b']
-LEAVES = ['crc_cycle', 'fileview_pos', 'fileview_unformatted', 'fileview_beyond']
+LEAN_MODULES = ['Beeb.Props.C05', 'Beeb.Props.C05b', 'Beeb.Props.C05c']
+LEAVES = ['crc_cycle', 'fileview_pos', 'fileview_unformatted', 'fileview_beyond',
+          'reverse_bit_order', 'pictrack_len', 'is_hfe3_opcode', 'hfe_le_word', 'hxc_le_word', 'hxc_le_quad', 'bitstream_raw_pos']
 RULE = ('abstract discs (as C01; 10/16/18 sectors per track; 35/40/80 tracks; one or two sides) recorded as FM or MFM tracks with random legal gap/sync lengths, '
         'fill bytes and physical sector order, wrapped as HFE v1, HFE v3 (random NOP/SETINDEX/SETBITRATE/SKIPBITS placement, in-block and straddling) and HxC MFM, '
         'last track padded or not; (1) Python and Lean spec encoders compared byte for byte (tracks, v3 item streams, containers); (2) real track decoders (in-process) '
